@@ -7,6 +7,8 @@ import warnings
 os.environ.setdefault('PYTHONHASHSEED', '0')
 os.environ.setdefault('NUMBA_DISABLE_PERFORMANCE_WARNINGS', '1')
 warnings.filterwarnings('ignore')
+import logging  # noqa
+logging.disable(logging.CRITICAL)
 sys.path.insert(0, os.path.dirname(os.path.abspath(__file__)))
 deps = os.path.join(os.path.dirname(os.path.abspath(__file__)), '.deps')
 if os.path.isdir(deps):
